@@ -105,7 +105,87 @@ def check_hash(pid, tier, replay=None):
                            "non-empty (op,flags,length-class) cells x families")
 
 
-CHECKS = {"C01": check_hash, "C06": check_hash, "C11": check_hash}
+def check_c15(pid, tier, replay=None):
+    """big totals: every family really hashes a stream crossing 2^29 (quick) / 2^32 / 2^32+2^29 (thorough)"""
+    import subprocess
+    from concurrent.futures import ThreadPoolExecutor
+    chk = vlib.Check(pid, tier)
+    thms = ["IsalVerif.HashMB.C15", "IsalVerif.HashMB.C15_stream_length", "IsalVerif.HashMB.C15_bitlen",
+            "IsalVerif.HashMB.C15_pack_fits", "IsalVerif.HashMB.C15_pack_order", "IsalVerif.HashMB.C01"]
+    for name, detail in vlib.lean_obligations(chk, "IsalVerif.Props.C15", thms, extra_targets=["isal_model"]):
+        chk.violation("Lean obligation no longer checks: %s" % name,
+                      {"kind": "obligation", "obligation": name, "detail": detail}, no_input=True)
+    drv = vlib.harness_bin("drv_hash_big")
+    modes = [0] if tier == "quick" else [0, 1, 2]
+    if replay:
+        rp = json.load(open(replay))
+        modes = [int(rp["args"][3])]
+    d = vlib.scratch()
+
+    def impl(job):
+        alg, fam, mode = job
+        ops = os.path.join(d, "bops_%s_%s_%d" % (alg, fam, mode))
+        res = os.path.join(d, "bres_%s_%s_%d" % (alg, fam, mode))
+        r = subprocess.run([drv, alg, fam, str(chk.seed), str(mode), ops, res], capture_output=True, text=True)
+        return (alg, fam, mode, r.returncode, ops, res)
+
+    jobs = [(a, f, m) for (a, f) in hashcheck.FAMILIES for m in modes]
+    if replay:
+        jobs = [j for j in jobs if "%s/%s" % (j[0], j[1]) == rp["family"]]
+    with ThreadPoolExecutor(max_workers=8) as ex:
+        impl_res = list(ex.map(impl, jobs))
+    # the op script depends on (alg, seed, mode) only -> one model run per (alg, mode)
+    def model(key):
+        alg, mode = key
+        ops = [r for r in impl_res if r[0] == alg and r[2] == mode][0][4]
+        with open(ops) as fh:
+            m = subprocess.run([vlib.MODEL_BIN], stdin=fh, capture_output=True, text=True)
+        return key, [l for l in m.stdout.split("\n") if l]
+    keys = sorted(set((r[0], r[2]) for r in impl_res))
+    with ThreadPoolExecutor(max_workers=8) as ex:
+        models = dict(ex.map(model, keys))
+    total_bytes = 0
+    for alg, fam, mode, rc, ops, res in impl_res:
+        key = "%s/%s" % (alg, fam)
+        lines = [l for l in open(res).read().split("\n") if l] if os.path.exists(res) else []
+        mons = [l for l in lines if l.startswith("MONITOR")]
+        if rc not in (0, 3):
+            mons.append("CRASH exit=%d" % rc)
+        il = [l for l in lines if not l.startswith("MONITOR") and not l.startswith("END")]
+        ml = models[(alg, mode)]
+        end = [l for l in lines if l.startswith("END")]
+        if end:
+            total_bytes += int(end[0].split("total=")[1].split()[0])
+        # op lines of all families of one algorithm are identical except the family name
+        diffs = [(i, a, b) for i, (a, b) in enumerate(zip(il, ml)) if a != b] + ([(-1, "len", "len")] if len(il) != len(ml) else [])
+        ok = not mons and not diffs
+        chk.oblige("big-stream correspondence+monitor %s mode=%d" % (key, mode), ok, "lines=%d diffs=%d monitors=%d" % (len(il), len(diffs), len(mons)))
+        args = [alg, fam, str(chk.seed), str(mode)]
+        if mons:
+            chk.violation("%s in %s" % (mons[0].split()[1] if len(mons[0].split()) > 1 else mons[0], key),
+                          {"kind": "history", "family": key, "args": args, "ops": open(ops).read().split("\n")[:12], "monitor": mons[:3]},
+                          match={"family": key, "monitor": mons[0].split()[1] if len(mons[0].split()) > 1 else "crash"})
+        elif diffs:
+            chk.violation("model/implementation correspondence broke for %s (big totals)" % key,
+                          {"kind": "obligation", "obligation": "big-stream correspondence %s" % key, "args": args,
+                           "first_disagreement": {"line": diffs[0][0], "impl": diffs[0][1][:200], "model": diffs[0][2][:200]}},
+                          no_input=True, match={"family": key, "monitor": "correspondence"})
+        if len(chk.samples) < 4 and il:
+            chk.samples.append({"family": key, "mode": mode, "ops": open(ops).read().split("\n")[1:4], "last": il[-1][:100]})
+    chk.cov["evaluations"] = len(impl_res)
+    chk.cov["distinct_nontrivial"] = len(impl_res)
+    chk.cov["bytes_hashed_by_implementation"] = total_bytes
+    chk.cov["crossings"] = {0: "2^29", 1: "2^32", 2: "2^32+2^29"}
+    chk.trusted = ["Lean 4.33.0 kernel; axioms allowed: propext, Classical.choice, Quot.sound",
+                   "big segments are evaluated on the model side as `absorb`/`target` of the stream (right-hand side of theorem C01/C15), 4 KiB at a time (absorb_segments)",
+                   "OpenSSL libcrypto as independent oracle; SIMD kernels modelled"]
+    chk.assumptions = ["4 GiB virtual window aliasing a 2 MiB memfd pattern (mmap MAP_FIXED) is available"]
+    return chk.finish(level="proof", rule="one stream per (alg,family,crossing) with random residues around the crossing; "
+                      "segments up to 2^32-1 bytes; every submit followed by flush-until-returned; all intermediate "
+                      "digests/totals compared with the Lean model and the final digest with OpenSSL")
+
+
+CHECKS = {"C01": check_hash, "C06": check_hash, "C11": check_hash, "C15": check_c15}
 
 
 def main():
